@@ -184,42 +184,94 @@ theorem errBlock_optional (sub : Bool) (e : PErr) (h : e.expectedOptional ≠ [[
       s "\n    - Expected (optional): " ++ normField e.expectedOptional ++ s "\n" ++ s "    - Actual:" ++ s "              " ++ normField e.actual ++ s "\n" := by
   simp [errBlock, hasOptional, h, blockHead]
 
-/-- a value list of any length but one is shown as its names joined by ", " -/
-theorem normField_list (l : List Str) (h : l.length ≠ 1) : normField l = Text.join (s ", ") l := by
-  match l, h with
-  | [], _ => rfl
-  | _ :: _ :: _, _ => rfl
+/-- **the text form shows every expected / actual value exactly as the error record carries it**: the names joined by ", "
+    (a single name: the name itself, an empty list: nothing) — unconditionally since the D39 repair -/
+theorem normField_faithful (l : List Str) : normField l = Text.join (s ", ") l := by
+  match l with
+  | [] => rfl
+  | [_] => rfl
+  | _ :: _ :: _ => rfl
 
-/-- a single value `int()` rejects is shown as it is -/
-theorem normField_single_text (x : Str) (h : Target.pyInt x = none) : normField [x] = x := by
-  simp [normField, h]
+theorem normField_single (x : Str) : normField [x] = x := rfl
 
-/-- **partial**: the shown value is the given one unless the list is a single text that `int()` accepts in a spelling other than the canonical one -/
-theorem normField_faithful_partial (l : List Str) (h : ∀ x i, l = [x] → Target.pyInt x = some i → Target.showInt i = x) :
-    normField l = Text.join (s ", ") l := by
-  match l, h with
-  | [], _ => rfl
-  | [x], h =>
-    simp only [normField, Text.join]
-    cases hp : Target.pyInt x with
-    | none => rfl
-    | some i => exact h x i rfl hp
-  | _ :: _ :: _, _ => rfl
+/-- … in particular the former witnesses: `007` stays `007`, `+10` stays `+10`, a size stays the numeral `str(size)` -/
+theorem normField_size (n : Nat) : normField [Text.natToStr n] = Text.natToStr n := rfl
 
-theorem pyInt_007 : Target.pyInt ['0', '0', '7'] = some 7 := by decide
-theorem pyInt_7 : Target.pyInt ['7'] = some 7 := by decide
+/-- the whole block with the record's own values spelled out (no optional list) -/
+theorem errBlock_plain_values (sub : Bool) (e : PErr) (h : e.expectedOptional = [[]]) :
+    errBlock sub e = s "  * " ++ e.field ++ s " did not match.\n" ++ s "    - Expected" ++ parens sub ++ s ": " ++ Text.join (s ", ") e.expectedRequired ++ s "\n" ++
+      s "    - Actual:" ++ s "   " ++ Text.join (s ", ") e.actual ++ s "\n" := by
+  rw [errBlock_plain sub e h, normField_faithful, normField_faithful]
 
-/-- **negation (with witness) of "the text form shows the values as given"**: the one-name list `['007']` is shown as `7` -/
-theorem normField_not_faithful : ∃ l : List Str, normField l ≠ Text.join (s ", ") l := by
-  refine ⟨[['0', '0', '7']], ?_⟩
-  simp only [normField, pyInt_007, Text.join]
-  simp [Target.showInt, Target.showNat]
+theorem errBlock_optional_values (sub : Bool) (e : PErr) (h : e.expectedOptional ≠ [[]]) :
+    errBlock sub e = s "  * " ++ e.field ++ s " did not match.\n" ++ s "    - Expected (required" ++ semi sub ++ s "): " ++ Text.join (s ", ") e.expectedRequired ++
+      s "\n    - Expected (optional): " ++ Text.join (s ", ") e.expectedOptional ++ s "\n" ++ s "    - Actual:" ++ s "              " ++ Text.join (s ", ") e.actual ++ s "\n" := by
+  rw [errBlock_optional sub e h, normField_faithful, normField_faithful, normField_faithful]
 
-/-- … so that a real mismatch (`compressions = 007` against a peer offering `7`) is printed with identical expected and actual values -/
-theorem text_shows_equal_values_for_a_mismatch :
-    ∃ e : PErr, e.expectedRequired ≠ e.actual ∧ normField e.expectedRequired = normField e.actual := by
-  refine ⟨{ field := s "Compression", expectedRequired := [['0', '0', '7']], expectedOptional := [[]], actual := [['7']] }, by decide, ?_⟩
-  simp only [normField, pyInt_007, pyInt_7]
+theorem splitOn_cons_ne (c x : Char) (t : Str) (h : x ≠ c) :
+    ∃ p ps, Text.splitOn c t = p :: ps ∧ Text.splitOn c (x :: t) = (x :: p) :: ps := by
+  cases hs : Text.splitOn c t with
+  | nil => exact absurd hs (Target.splitOn_ne_nil c t)
+  | cons p ps => exact ⟨p, ps, rfl, by simp [Text.splitOn, h, hs]⟩
+
+/-- splitting the shown text at its commas gives the names back (the later ones behind the separator's blank), when no name contains a comma -/
+theorem splitOn_join_comma (x : Str) (xs : List Str) (hx : ',' ∉ x) (hxs : ∀ y ∈ xs, ',' ∉ y) :
+    Text.splitOn ',' (Text.join (s ", ") (x :: xs)) = x :: xs.map (' ' :: ·) := by
+  induction xs generalizing x with
+  | nil => simpa [Text.join] using Target.splitOn_no_sep ',' x hx
+  | cons y r ih =>
+    have hy : ',' ∉ y := hxs y (by simp)
+    have hr : ∀ z ∈ r, ',' ∉ z := fun z hz => hxs z (by simp [hz])
+    have hj : Text.join (s ", ") (x :: y :: r) = x ++ ',' :: (' ' :: Text.join (s ", ") (y :: r)) := by
+      simp [Text.join, s]
+    rw [hj, Target.splitOn_append_sep ',' x _ hx]
+    obtain ⟨p, ps, h1, h2⟩ := splitOn_cons_ne ',' ' ' (Text.join (s ", ") (y :: r)) (by decide)
+    rw [h2]
+    rw [ih y hy hr] at h1
+    injection h1 with hp hps
+    subst hp; subst hps
+    simp
+
+theorem map_cons_inj (c : Char) : ∀ xs ys : List Str, xs.map (c :: ·) = ys.map (c :: ·) → xs = ys
+  | [], [], _ => rfl
+  | [], _ :: _, h => by simp at h
+  | _ :: _, [], h => by simp at h
+  | x :: xs, y :: ys, h => by
+    simp only [List.map_cons, List.cons.injEq] at h
+    rw [h.1.2, map_cons_inj c xs ys h.2]
+
+/-- **two value lists are shown by the same text only if they are the same list** — for non-empty lists of comma-free names (the
+    names of a KEXINIT name-list and of a policy file's list directive never contain a comma) -/
+theorem normField_injective (a b : List Str) (ha : a ≠ []) (hb : b ≠ []) (hca : ∀ x ∈ a, ',' ∉ x) (hcb : ∀ x ∈ b, ',' ∉ x)
+    (h : normField a = normField b) : a = b := by
+  rw [normField_faithful, normField_faithful] at h
+  match a, b, ha, hb with
+  | x :: xs, y :: ys, _, _ =>
+    have h1 := splitOn_join_comma x xs (hca x (by simp)) (fun z hz => hca z (by simp [hz]))
+    have h2 := splitOn_join_comma y ys (hcb y (by simp)) (fun z hz => hcb z (by simp [hz]))
+    rw [h] at h1
+    rw [h1] at h2
+    injection h2 with hxy hm
+    subst hxy
+    have : xs = ys := map_cons_inj ' ' xs ys hm
+    rw [this]
+
+/-- **a mismatch never shows two equal texts**: when the expected and the actual list of an error differ, so do the two printed values -/
+theorem mismatch_shows_different_values (e : PErr) (hne : e.expectedRequired ≠ e.actual) (h1 : e.expectedRequired ≠ []) (h2 : e.actual ≠ [])
+    (hc1 : ∀ x ∈ e.expectedRequired, ',' ∉ x) (hc2 : ∀ x ∈ e.actual, ',' ∉ x) :
+    normField e.expectedRequired ≠ normField e.actual :=
+  fun h => hne (normField_injective _ _ h1 h2 hc1 hc2 h)
+
+/-- the two limits of that statement, with witnesses: the empty list and the list of one empty name both print nothing … -/
+theorem normField_nil_vs_empty_name : normField [] = normField [[]] ∧ ([] : List Str) ≠ [[]] := ⟨rfl, by decide⟩
+
+/-- … and a name that itself contains ", " prints like two names -/
+theorem normField_comma_names : normField [['a', ',', ' ', 'b']] = normField [['a'], ['b']] ∧ [['a', ',', ' ', 'b']] ≠ [['a'], ['b']] := ⟨by decide, by decide⟩
+
+/-- the D39 witnesses: `compressions = 007` against `7`, `macs = 1_0` against `+10` — the two values shown differ -/
+theorem d39_witnesses_shown_apart :
+    normField [['0', '0', '7']] ≠ normField [['7']] ∧ normField [['1', '_', '0']] ≠ normField [['+', '1', '0']] ∧
+    normField [['0', '0', '7']] = ['0', '0', '7'] ∧ normField [['+', '1', '0']] = ['+', '1', '0'] := by decide
 
 /-! ### C. the outdated-policy notice -/
 
@@ -302,46 +354,6 @@ theorem colours_off_plain (cfg : Cfg) (c : Conf) (pi : PolicyInfo) (peer : Peer)
   rw [text_entries_info cfg c pi peer hj hl]
   unfold resultLine noteEntries
   cases passed pi peer <;> cases pi.outdated <;> simp [hc, paint, Output.colorOn]
-
-/-! ### the sizes in an error are shown digit for digit -/
-
-theorem digitChar_agree : ∀ n, n < 10 → Nat.digitChar n = Target.digitChar n := by decide
-
-theorem natToStr_eq_showNat (n : Nat) : Text.natToStr n = Target.showNat n := by
-  rw [C05File.natToStr_eq]
-  induction n using Nat.strongRecOn with
-  | _ n ih =>
-    by_cases hn : n < 10
-    · rw [Nat.toDigits_of_lt_base hn, Target.showNat_lt n hn, digitChar_agree n hn]
-    · have h10 : 0 < n / 10 := by omega
-      have := Nat.toDigits_append_toDigits (b := 10) (n := n / 10) (d := n % 10) (by decide) h10 (Nat.mod_lt _ (by decide))
-      have e2 : 10 * (n / 10) + n % 10 = n := by omega
-      rw [e2] at this
-      rw [← this, ih (n / 10) (by omega), Nat.toDigits_of_lt_base (Nat.mod_lt _ (by decide)), Target.showNat_ge n hn,
-        digitChar_agree _ (Nat.mod_lt _ (by decide))]
-
-theorem pyInt_digits_long (ds : Str) (hne : ds ≠ []) (h : ∀ c ∈ ds, Text.isDigit c = true) (hl : ¬ ds.length ≤ Target.maxStrDigits) :
-    Target.pyInt ds = none := by
-  unfold Target.pyInt
-  simp only [Target.intStrip_digits ds h]
-  cases ds with
-  | nil => exact absurd rfl hne
-  | cons c r =>
-    rw [Target.signSplit_digit c r (h c (by simp))]
-    simp only [Target.groupedDigits_digits (c :: r) hne h]
-    have hl' : ¬ r.length + 1 ≤ Target.maxStrDigits := by simpa using hl
-    simp only [List.length_cons, gt_iff_lt]
-    rw [if_pos (by omega)]
-
-/-- **the expected / actual size of a size error (`[str(size)]`) is printed exactly** — whatever its length: `int()` of a numeral
-    gives the number back, and beyond the 4300-digit limit `int()` raises and the text is printed unchanged -/
-theorem normField_size (n : Nat) : normField [Text.natToStr n] = Text.natToStr n := by
-  rw [natToStr_eq_showNat]
-  simp only [normField]
-  by_cases hl : (Target.showNat n).length ≤ Target.maxStrDigits
-  · rw [Target.pyInt_digits _ (Target.showNat_ne_nil n) (Target.showNat_digits n) hl, Target.decVal_showNat]
-    rfl
-  · rw [pyInt_digits_long _ (Target.showNat_ne_nil n) (Target.showNat_digits n) hl]
 
 /-! ### F. a policy audit whose handshake failed prints no verdict -/
 
